@@ -3,6 +3,7 @@ package props
 import (
 	"fmt"
 	"go/ast"
+	"go/token"
 	"go/types"
 	"sort"
 	"strings"
@@ -296,7 +297,14 @@ func runC02(p *core.Prog, r *core.Report) {
 		for _, c := range dpCalls {
 			// prefix argument derives from partial.DeletedPrefixes
 			src := core.Trace(c.(ssa.CallInstruction).Common().Args[2], 0)
-			if !src.Fields[delPref] {
+			fromDP := src.Fields[delPref]
+			for prm := range src.Params {
+				// the replay may sit in a helper that is handed the partial's DeletedPrefixes
+				if cv := core.CallerValue(fn, prm); cv != ssa.Value(prm) && core.Trace(cv, 0).Fields[delPref] {
+					fromDP = true
+				}
+			}
+			if !fromDP {
 				okDP = false
 			}
 			if _, ok := core.MustReachAfter(fn, c, isFlush, nil); !ok {
@@ -751,6 +759,61 @@ func checkSelectors(p *core.Prog, r *core.Report) {
 		n++
 		r.Check(bi.Name() == want, "C02.R7", "Merge/"+strings.Join(labels, "/")+"/combiner", "the merge combiner of this (policy, value type) is a "+want+" of its two operands", "the builtin "+bi.Name()+" is used", p.Pos(in.Pos()))
 	})
+	// a sum may also be written in place (v0 + v1, new(big.Int).Add(v0, v1), v0.Add(v1)) in an ADD / SET_SUM branch that
+	// has no combiner closure: counted once per (policy, value type), and it must be a sum (not a difference, not a product)
+	covered := map[string]bool{}
+	for _, cl := range merge.AnonFuncs {
+		if labels := p.CaseLabels(cl.Pos()); len(labels) > 0 && len(cl.Params) == 2 {
+			covered[strings.Join(labels, "/")] = true
+		}
+	}
+	inline := map[string]string{}
+	core.Instrs(merge, func(in ssa.Instruction) {
+		labels := p.CaseLabels(in.Pos())
+		if len(labels) < 2 || (labels[0] != "Module_KindStore_UPDATE_POLICY_ADD" && labels[0] != "Module_KindStore_UPDATE_POLICY_SET_SUM") {
+			return
+		}
+		key := strings.Join(labels, "/")
+		if covered[key] {
+			return
+		}
+		switch x := in.(type) {
+		case *ssa.BinOp:
+			bt, ok := x.Type().Underlying().(*types.Basic)
+			if !ok || bt.Info()&types.IsNumeric == 0 {
+				return
+			}
+			if _, isK := x.X.(*ssa.Const); isK {
+				return
+			}
+			if _, isK := x.Y.(*ssa.Const); isK {
+				return
+			}
+			switch x.Op {
+			case token.ADD:
+				if inline[key] == "" {
+					inline[key] = "sum"
+				}
+			case token.SUB, token.MUL, token.QUO:
+				inline[key] = "other(" + x.Op.String() + ")"
+			}
+		case *ssa.Call:
+			if cl := core.CommonCallee(x.Common()); cl != nil && cl.Pkg() != nil && (strings.HasSuffix(cl.Pkg().Path(), "math/big") || strings.Contains(cl.Pkg().Path(), "decimal")) {
+				switch cl.Name() {
+				case "Add":
+					if inline[key] == "" {
+						inline[key] = "sum"
+					}
+				case "Sub", "Mul", "Quo", "Div":
+					inline[key] = "other(" + cl.Name() + ")"
+				}
+			}
+		}
+	})
+	for key, got := range inline {
+		n++
+		r.Check(got == "sum", "C02.R7", "Merge/"+key+"/combiner", "the merge combiner of this (policy, value type) is a sum of its two operands", "computes "+got, p.Pos(merge.Pos()))
+	}
 	if n < 16 {
 		core.Undecide("Merge: only %d combiners found (expected 16)", n)
 	}
